@@ -63,6 +63,54 @@ func v1Gens() []OpGen {
 			}
 			return w.TxEvent("liq.v1_msg", a, &liqv1types.MsgLiquidateVaultRequest{From: a.Bech(), AppId: w.Cdp.AppID, VaultId: id})
 		}},
+		// a vault opened exactly at the liquidation ratio, then the liquidate message on it in the same block (same prices):
+		// "at or above the ratio" is the safe side
+		{"liq.v1_exact", 3, func(w *World, r *Rng) *Event {
+			if !on(w) {
+				return nil
+			}
+			a := w.cdpUser(r)
+			prod := w.pickProduct(r, false)
+			if prod == nil || prod.Stable || prod.AppID != w.Cdp.AppID {
+				return nil
+			}
+			if _, has := w.userVault(a, prod); has {
+				return nil
+			}
+			ctx := w.Ctx()
+			ep, ok := w.App.AssetKeeper.GetPairsVault(ctx, prod.ExtID)
+			pin, ok1 := w.tokenPrice(prod.In, prod)
+			pout, ok2 := w.productDebtPrice(prod)
+			if !ok || !ok1 || !ok2 || pin == 0 || pout == 0 {
+				return nil
+			}
+			// collateral value / debt value == MinCr  <=>  in*pin*decOut*1e18 == out*pout*decIn*minCr
+			lhsUnit := new(big.Int).Mul(new(big.Int).SetUint64(pin), prod.Out.Decimals.BigInt())
+			lhsUnit.Mul(lhsUnit, oneE18)
+			rhsUnit := new(big.Int).Mul(new(big.Int).SetUint64(pout), prod.In.Decimals.BigInt())
+			rhsUnit.Mul(rhsUnit, ep.MinCr.BigInt())
+			g := new(big.Int).GCD(nil, nil, lhsUnit, rhsUnit)
+			inStep := new(big.Int).Quo(rhsUnit, g)  // smallest collateral amount with an exact partner
+			outStep := new(big.Int).Quo(lhsUnit, g) // ... and that partner
+			if inStep.BitLen() > 90 || outStep.BitLen() > 60 {
+				return nil
+			}
+			// smallest multiple that clears the debt floor, times a small random factor
+			k := new(big.Int).Quo(ep.DebtFloor.BigInt(), outStep)
+			k.Add(k, big.NewInt(r.Range(1, 20)))
+			in := sdk.NewIntFromBigInt(new(big.Int).Mul(inStep, k))
+			out := sdk.NewIntFromBigInt(new(big.Int).Mul(outStep, k))
+			if in.GT(w.Bal(a.Addr, prod.In.Denom)) || !out.IsInt64() {
+				return nil
+			}
+			first := w.TxEvent("vault.create", a, &vaulttypes.MsgCreateRequest{From: a.Bech(), AppId: prod.AppID, ExtendedPairVaultId: prod.ExtID, AmountIn: in, AmountOut: out})
+			liq := w.Actors[r.Intn(len(w.Actors))]
+			id := w.App.VaultKeeper.GetIDForVault(ctx) + 1
+			second := w.TxEvent("liq.v1_msg", liq, &liqv1types.MsgLiquidateVaultRequest{From: liq.Bech(), AppId: prod.AppID, VaultId: id})
+			first.then = []*Event{second}
+			w.Stats.Probe("v1.gen.vault_exactly_at_ratio")
+			return first
+		}},
 		{"bid.v1_dutch", 12, func(w *World, r *Rng) *Event {
 			if !on(w) {
 				return nil
